@@ -424,9 +424,13 @@ fn run(args: &Args) {
                     (format!("RemoveAllow {} {}", k, coq_bool(!with_bad)), json!(["remove_allowlist", list]), r.map_err(|_| ()))
                 }
                 14 => {
-                    let k = rng.below(3) as usize;
+                    // k = 3: the replacement list is empty (the operator clears the allowlist)
+                    let k = rng.below(4) as usize;
                     let with_bad = rng.chance(1, 3);
-                    let list: Vec<String> = if with_bad { vec![ADDRS[k].to_string(), BAD_ADDR.to_string()] } else { vec![ADDRS[k].to_string()] };
+                    let mut list: Vec<String> = if k < 3 { vec![ADDRS[k].to_string()] } else { vec![] };
+                    if with_bad {
+                        list.push(BAD_ADDR.to_string());
+                    }
                     let r = catch_unwind(AssertUnwindSafe(|| node.set_allowlist(&list).is_ok()));
                     (format!("SetAllow {} {}", k, coq_bool(!with_bad)), json!(["set_allowlist", list]), r.map_err(|_| ()))
                 }
